@@ -64,7 +64,23 @@ DM_NEAR_PAIRS = [(60, 61), (62, 63), (62, 64), (30, 62), (65, 66), (67, 68), (69
 # column, the order of the columns of a table with sorted = False
 DM_SHAPE_PAIRS = [(110, 111), (110, 112), (111, 112), (113, 114), (114, 115), (113, 115), (113, 117), (115, 116), (118, 119),
                   (120, 121), (122, 123), (124, 125), (110, 116), (126, 127), (110, 126)]
+# tables that are the same argument (same cells, names, types, row order, the same columns presented in the same order)
+# but whose columns were CREATED in different orders / in different ways: see _order_tables
+DM_ORDER_BASES = list(range(150, 157))
+DM_SHAPE_PAIRS += [(154, 155)]
+DM_NEAR_PAIRS += [(150, 151), (152, 153), (150, 156)]
 DM_NEAR_PAIRS += DM_SHAPE_PAIRS
+# argument lists for which the unwrapped body RAISES (RAISE, tag): the call raises what the body raises, nothing is
+# stored, and the call counts as "the next call" after clear(); see RAISE_BASES
+RAISE = '__raise__'
+BOOM = '__boom__'
+RAISE_BASES = [160, 161, 162]       # body raises ZeroDivisionError / ValueError / KeyError
+THUNK_RAISE_BASE = 163              # the LAST callable of the lazily evaluated argument list raises (t = 2); t < 2: returns
+RAISE_TAGS = {'zero': ZeroDivisionError, 'value': ValueError, 'key': KeyError}
+
+
+class Boom(Exception):
+    """raised by a callable argument while it is evaluated lazily"""
 DM_LONG = (69, 70, 71, 72, 73, 74)
 # classes whose body result is falsy or otherwise unusual (see SPECIAL): the argument list names the result
 RET = '__ret__'
@@ -247,7 +263,9 @@ assert len(SPECIAL_TAGS) == len(SPECIAL_BASES) and len(RET_TABLE_TAGS) == len(RE
 
 def plain_body(args, kwargs):
     """the unwrapped body: a description of its arguments, or -- for the argument lists (RET, tag) -- the falsy /
-    unusual value the tag names"""
+    unusual value the tag names; for the argument lists (RAISE, tag) it raises"""
+    if len(args) == 2 and not kwargs and isinstance(args[0], str) and args[0] == RAISE and args[1] in RAISE_TAGS:
+        raise RAISE_TAGS[args[1]]('the body raises for this argument list')
     if len(args) == 2 and not kwargs and isinstance(args[0], str) and args[0] == RET and args[1] in SPECIAL_TAGS:
         return _special()[args[1]]()
     return ['R', canon(args), canon(kwargs)]
@@ -438,8 +456,141 @@ def bases():
         109: [(('p', {'a': {'b': {'c': 14}}, 'z': 0}), {}, ''), (('p', {'z': 0, 'a': {'b': {'c': 14}}}), {}, 'kwperm')],
     })
     B.update(_shape_tables())
+    B.update(_order_tables())
+    for b, tag in zip(RAISE_BASES, sorted(RAISE_TAGS)):
+        B[b] = [((RAISE, tag), {}, '')]
+    B[THUNK_RAISE_BASE] = [((7, BOOM), {}, '')]
     assert all(b < MOD - 1 for b in B)
     return B
+
+
+_ORDER = {}
+
+
+def _order_tables():
+    """DataMatrix arguments that differ only in the ORDER / the WAY in which their columns were created (built once per
+    process).  A sorted table presents its columns by name, so all of these are one argument; an unsorted table presents
+    them in creation order, so only histories that end in the same presented order are one argument (what the unchanged
+    implementation does: to_json follows dm.columns)."""
+    if _ORDER:
+        return {b: list(forms) for b, forms in _ORDER.items()}
+    import numpy as np
+    from datamatrix import DataMatrix, FloatColumn, IntColumn, MixedColumn, SeriesColumn
+    A, Bc, C = [1, 2], ['x', 'y'], [1.5, None]
+    cells = {'a': A, 'b': Bc, 'c': C}
+
+    def created(order, vals=cells, sort=True):
+        dm = DataMatrix(length=2)
+        if not sort:
+            dm.sorted = False
+        for name in order:
+            dm[name] = vals[name]
+        return dm
+
+    def typed_then_filled(order, fill):
+        dm = DataMatrix(length=2)
+        for name in order:
+            dm[name] = MixedColumn
+        for name in fill:
+            dm[name] = cells[name]
+        return dm
+
+    def stacked(order1, order2):
+        t1, t2 = DataMatrix(length=1), DataMatrix(length=1)
+        for name in order1:
+            t1[name] = [cells[name][0]]
+        for name in order2:
+            t2[name] = [cells[name][1]]
+        return t1 << t2
+
+    def renamed():
+        dm = DataMatrix(length=2)
+        dm.zz = Bc
+        dm.c = C
+        dm.a = A
+        dm.rename('zz', 'b')
+        return dm
+
+    def recreated():
+        dm = DataMatrix(length=2)
+        dm.a = [0, 0]
+        dm.b = Bc
+        dm.c = C
+        del dm.a
+        dm.a = A
+        return dm
+
+    def typed(order, s01=1.0):
+        dm = DataMatrix(length=2)
+        for name in order:
+            if name == 'i':
+                dm.i = IntColumn
+                dm.i = [1, 2]
+            elif name == 'f':
+                dm.f = FloatColumn
+                dm.f = [0.5, 1.5]
+            else:
+                dm.s = SeriesColumn(depth=2)
+                dm.s[:] = np.array([[0.0, s01], [2.0, 3.0]])
+        return dm
+
+    def typed_late(order):
+        dm = DataMatrix(length=2)
+        for name in order:
+            dm[name] = {'i': IntColumn, 'f': FloatColumn, 's': SeriesColumn(depth=2)}[name]
+        dm.s[:] = np.array([[0.0, 1.0], [2.0, 3.0]])
+        dm.f = [0.5, 1.5]
+        dm.i = [1, 2]
+        return dm
+
+    def typed_stacked():
+        t1, t2 = typed('sfi')[0:1], typed('ifs')[1:2]
+        t = DataMatrix(length=1)
+        t.f = FloatColumn
+        t.f = [1.5]
+        t.s = SeriesColumn(depth=2)
+        t.s[:] = np.array([[2.0, 3.0]])
+        t.i = IntColumn
+        t.i = [2]
+        return t1 << t
+
+    U = {'a': [7, 8], 'b': [5, 6]}
+
+    def u_renamed():
+        dm = DataMatrix(length=2)
+        dm.sorted = False
+        dm.q = U['b']
+        dm.a = U['a']
+        dm.rename('q', 'b')
+        return dm
+
+    def u_recreated(first, second):
+        # `second` is created first, deleted and created again: presented order (first, second)
+        dm = DataMatrix(length=2)
+        dm.sorted = False
+        dm[second] = [0, 0]
+        dm[first] = U[first]
+        del dm[second]
+        dm[second] = U[second]
+        return dm
+
+    near = dict(cells, c=[1.5, 0])
+    B = _ORDER
+    B.update({
+        150: [((created('abc'),), {}, ''), ((created('cba'),), {}, ''), ((typed_then_filled('cab', 'bca'),), {}, ''),
+              ((DataMatrix(length=2, c=C, b=Bc, a=A),), {}, ''), ((stacked('bca', 'acb'),), {}, ''), ((renamed(),), {}, ''),
+              ((recreated(),), {}, ''), ((created('bac')[:],), {}, '')],
+        151: [((created('cba', near),), {}, ''), ((created('abc', near),), {}, '')],
+        152: [((typed('ifs'),), {}, ''), ((typed('sfi'),), {}, ''), ((typed_late('fsi'),), {}, ''),
+              ((typed_stacked(),), {}, '')],
+        153: [((typed('sif', 1.25),), {}, ''), ((typed('fis', 1.25),), {}, '')],
+        154: [((created('ba', U, sort=False),), {}, ''), ((u_renamed(),), {}, ''), ((u_recreated('b', 'a'),), {}, '')],
+        155: [((created('ab', U, sort=False),), {}, ''), ((u_recreated('a', 'b'),), {}, '')],
+        # inside a list and as a keyword
+        156: [(([created('cba'), 1],), {'m': created('abc', near)}, ''),
+              (((recreated(), 1),), {'m': created('bca', near)}, '')],
+    })
+    return {b: list(forms) for b, forms in B.items()}
 
 
 _SHAPE = {}
@@ -577,7 +728,9 @@ def canon(x):
     if isinstance(x, dict):
         return ['map'] + [[_fresh(k), canon(v)] for k, v in sorted(x.items())]
     if isinstance(x, DataMatrix):
-        return ['dm', len(x)] + [[name, type(col).__name__, _col_shape(col), [canon(v) for v in col]]
+        # (names and type names as new objects: the size of the pickled description must not depend on which strings of
+        # the argument happen to be one object -- that differs between tables built in different ways)
+        return ['dm', len(x)] + [[_fresh(name), _fresh(type(col).__name__), _col_shape(col), [canon(v) for v in col]]
                                  for name, col in x.columns]
     if callable(x):
         return ['callable', getattr(x, '__name__', '?')]
@@ -703,10 +856,23 @@ def expected_and_sizes(B):
         exp, sizes = {}, {}
         for b, forms in B.items():
             a, k, _ = forms[0]
+            if b in RAISE_BASES:        # the body raises: there is no value (and nothing to store)
+                exp[b], sizes[b] = 'raises:%s' % a[1], 0
+                continue
             exp[b] = vdesc(plain_body(a, k))
             sizes[b] = sys.getsizeof(pickle.dumps(plain_body(a, k)))
         _EXPECTED['exp'], _EXPECTED['sizes'] = exp, sizes
     return dict(_EXPECTED['exp']), dict(_EXPECTED['sizes'])
+
+
+def expected_exception(cls):
+    """the exception class a call of argument class cls raises when it is not served from the store (None: it returns)"""
+    b, t = cls % MOD, cls // MOD
+    if b in RAISE_BASES:
+        return RAISE_TAGS[sorted(RAISE_TAGS)[RAISE_BASES.index(b)]]
+    if b == THUNK_RAISE_BASE and t == 2:
+        return Boom
+    return None
 
 
 class World(object):
@@ -739,6 +905,8 @@ class World(object):
 
         def th():
             world.forced[0] += 1
+            if isinstance(val, str) and val == BOOM:        # this callable raises when it is evaluated
+                raise Boom('evaluating this callable argument raises')
             return val
         th.__name__ = 'th_%d_%d' % (b, pos)
         th.value = val
@@ -824,7 +992,7 @@ class C20:
     rule = ('seeded call histories (4-12 operations quick, 10-40 thorough) over 1-4 memoize instances wrapping one '
             'body: every combination of persistent x key(None/explicit) x lazy x max_size(1 GiB, 0, below one value, '
             '1-4 values) is used as first instance, further instances share or do not share one of 3 temp folders; '
-            'operations: call with one of 141 argument classes (int/float/bool/str/None scalars, positional pairs, '
+            'operations: call with one of 152 argument classes (int/float/bool/str/None scalars, positional pairs, '
             'lists vs tuples (same class), nested containers, dicts, keyword forms and dicts written in several orders '
             '(same class), unicode, strings that need escaping or imitate the separators of the hashed text, -0.0, '
             'DataMatrix values equal / differing in one cell / one column name / row order / column type / NaN vs None; '
@@ -849,6 +1017,20 @@ class C20:
             'keyword) in nearly-equal pairs; 10 argument lists with values below the top level (depth 2-4 inside lists / '
             'tuples / dicts / keyword values, next to non-callable siblings, a DataMatrix sibling, a list-valued slot) whose '
             'thunk variants put callables there in lazy instances (class = base + 1000 x number of callables); '
+            '7 classes of DataMatrix ARGUMENTS that are one argument although their columns were CREATED in different orders / '
+            'ways (a sorted table presents its columns by name): created a-b-c / c-b-a, columns typed first and filled in '
+            'another order, the keyword constructor DataMatrix(length, c=, b=, a=), two tables stacked with <<, a column '
+            'renamed into place, a column deleted and created again, a copy; Int / Float / Series columns created in three '
+            'orders, typed first, stacked; unsorted tables (they present creation order) whose histories end in the same '
+            'presented order (same class) or in the other order (another class: what the unchanged implementation does); '
+            'such tables inside a list and as a keyword; nearly-equal pairs; a scenario calls every form of 4 of them one '
+            'after the other (one execution per table); 3 argument lists for which the BODY RAISES (ZeroDivisionError / ValueError / '
+            'KeyError) and one whose second callable argument raises while it is evaluated lazily: the call must raise '
+            'that exception, nothing is stored, the entries of the other argument lists stay, and a raising call that '
+            'follows clear() IS the next call -- the call after it is served from the cache (scenario: call a, b, clear(), '
+            'raising call, b, a, raising call again, clear(), ...; memory / persistent, lazy / not, explicit key, a second '
+            'instance on the same folder; raising classes also enter the random histories); such histories are judged by '
+            'Spec/MemoExn.accept_x and compared with Model/MemoExn.wrun_x; '
             'thunk variants in lazy instances, clear(), new instance (constructed directly or through '
             'memoize(**options)(fnc)); the returned object is mutated after every call (isolation). Observed per call: '
             'value id, execution-counter delta, thunk-counter delta, _cache keys in order, cache_size, files of the '
@@ -885,6 +1067,11 @@ class C20:
     ]
     assumptions = [
         'all instances of a history wrap the same function; explicit keys differ from every argument-derived key',
+        'a call whose body (or, in lazy mode, whose callable argument) raises: the exception is not a value -- nothing is '
+        'stored, so the same argument list re-executes on every call (exceptions are not memoised: at-most-once is '
+        'about calls that return); being the call that follows clear() it uses the clear() up, as the unchanged '
+        'implementation does (the flag is reset by the lookup of that call) and as the property says (exactly the next '
+        'call re-executes); the callable that raises is the last one of its argument list',
         'max_size >= 0; no .tar.xz archives and no old-style DataMatrix pickles in the cache folder; debug=False',
         'Section hypotheses that appear as premises of the key theorems: md5_injective (md5 is injective on the '
         'hashed texts); float_repr_inj and float_repr_shape (float.__repr__ is injective on finite floats and '
@@ -922,6 +1109,7 @@ class C20:
         pyfail = []
         trace = []
         observed = []
+        raised = False
         try:
             w = World(root)
             for op in ops:
@@ -962,10 +1150,29 @@ class C20:
                     c0, f0 = w.count[0], w.forced[0]
                     try:
                         r = g(*a, **k)
-                    except Exception as e:      # the property promises a value for every call
-                        pyfail.append('call %d of class %d raised %s: %s' % (len(trace), cls, type(e).__name__, e))
-                        observed.append(['raised', type(e).__name__])
-                        break
+                    except Exception as e:      # noqa: BLE001
+                        ran, forced = w.count[0] - c0, w.forced[0] - f0
+                        want = expected_exception(cls)
+                        if want is None or type(e) is not want:
+                            # the property promises a value for every call whose body returns one
+                            pyfail.append('call %d of class %d raised %s: %s' % (len(trace), cls, type(e).__name__, e))
+                            observed.append(['raised', type(e).__name__])
+                            break
+                        # the body (or a lazily evaluated callable argument) raises for this argument list: the call
+                        # raises the same exception; what the instance holds afterwards is observed and judged
+                        if ran not in (0, 1):
+                            pyfail.append('body executed %d times in one call' % ran)
+                        keys = [w.keymap.get(mk, UNKNOWN_KEY) for mk in g._cache.keys()]
+                        cs = g.cache_size
+                        fo = w.folder(o['folder'])
+                        files = ([w.keymap.get(fn, UNKNOWN_KEY) for fn in sorted(os.listdir(fo))]
+                                 if os.path.isdir(fo) else [])
+                        w.prev_keys[i] = keys
+                        raised = True
+                        trace.append('xR %d %d (mx %s %d %s %d %s)' % (
+                            i, cls, L.boolean(ran >= 1), forced, L.zs(keys), cs, L.zs(files)))
+                        observed.append(['call-raised', type(e).__name__, ran, forced, keys, cs, files])
+                        continue
                     ran, forced = w.count[0] - c0, w.forced[0] - f0
                     v = w.vid(r)
                     if ran not in (0, 1):
@@ -1012,6 +1219,8 @@ class C20:
         # sizes of the values this history can store or return (the other value ids are not referred to)
         used = {op[2] % MOD for op in ops if op[0] == 'call'}
         sizes = L.lst('(%d, %d)' % (b, s) for b, s in sorted(w.sizes.items()) if b in used)
+        if raised:      # a history with a raising call: the trace type of Spec/MemoExn.v
+            trace = [t if t.startswith('xR ') else 'xT (%s)' % t for t in trace]
         return trace, observed, sizes, pyfail, w.evicted
 
     @staticmethod
@@ -1032,6 +1241,7 @@ class C20:
         ops = inp['ops']
         trace, observed, sizes, pyfail, evicted = self._run(ops)
         tr = L.lst(trace)
+        x = '_x' if any(t.startswith('xR ') for t in trace) else ''
         calls = [o for o in observed if o[0] == 'call']
         hit = any(o[2] == 0 for o in calls)
         run = any(o[2] >= 1 for o in calls)
@@ -1047,10 +1257,21 @@ class C20:
             tags.append('eviction')
         if len(news) > 1:
             tags.append('multi-instance')
+        if x:
+            tags.append('has-raising-call')
+            kinds = [o[0] for o in observed]
+            for j, kd in enumerate(kinds):
+                if kd == 'call-raised':
+                    prev = [q for q in kinds[:j] if q != 'new']
+                    tags.append('raise:' + ('after-clear' if prev and prev[-1] == 'clear' else 'ordinary'))
+                    tags.append('raise:' + ('in-body' if observed[j][2] else 'in-lazy-evaluation'))
+                    if news:
+                        tags.append('raise:%s%s' % ('persistent' if news[0]['persistent'] else 'memory',
+                                                    '-lazy' if news[0]['lazy'] else ''))
         return {
             'input': inp, 'observed': observed, 'pyfail': '; '.join(sorted(set(pyfail))) or None,
-            'oracle': '(oracle %s %s)' % (sizes, tr),
-            'model': '(model_agrees %s %s)' % (sizes, tr),
+            'oracle': '(oracle%s %s %s)' % (x, sizes, tr),
+            'model': '(model_agrees%s %s %s)' % (x, sizes, tr),
             'nontrivial': hit and run,
             'sig': repr(ops),
             'tags': tags,
@@ -1098,6 +1319,12 @@ class C20:
             pool_b += rng.sample(SPECIAL_BASES, rng.randint(1, 3))
             if rng.random() < 0.5:
                 pool_b.append(SPECIAL_BASES[0])         # None: what a lookup returns for "nothing there"
+        # tables whose columns were created in different orders / ways (the form is drawn per call)
+        if rng.random() < 0.3:
+            pool_b += rng.sample(DM_ORDER_BASES, 2)
+        # argument lists for which the body (or, in lazy instances, a callable argument) raises
+        if rng.random() < 0.3:
+            pool_b += rng.sample(RAISE_BASES, rng.randint(1, 2)) + [THUNK_RAISE_BASE]
         n = rng.randint(4, maxlen)
         while len(ops) < n:
             r = rng.random()
@@ -1134,8 +1361,12 @@ class C20:
             return 0
         return fi % len(forms)
 
+    def _value_sizes(self):
+        """sizes of the values the body returns (a raising argument list has none)"""
+        return sorted(v for b, v in self._sizes.items() if b not in RAISE_BASES)
+
     def _pick_max(self, rng):
-        s = sorted(self._sizes.values())
+        s = self._value_sizes()
         typical = s[len(s) // 2]
         return rng.choice([ONE_GIGABYTE, ONE_GIGABYTE, 0, s[0] - 1, typical, 2 * typical, 2 * typical + 40,
                            3 * typical, 4 * typical + 100, 1000, 5000])
@@ -1151,7 +1382,7 @@ class C20:
         cases = []
         maxlen = 12 if tier == 'quick' else 40
         reps = 5 if tier == 'quick' else 14
-        s = sorted(self._sizes.values())
+        s = self._value_sizes()
         typical = s[len(s) // 2]
         maxes = [ONE_GIGABYTE, 0, s[0] - 1, typical + 10, 2 * typical + 20, 3 * typical + 30]
         for persistent in (False, True):
@@ -1242,7 +1473,7 @@ class C20:
                     for fi in range(len(w.B[b])):
                         out.append(self._lazyeval_case(b + MOD * t, fi, True))
                     out.append(self._lazyeval_case(b + MOD * t, 0, False))
-            elif n and b not in RET_TABLE_BASES:
+            elif n and b not in RET_TABLE_BASES and b not in RAISE_BASES and b != THUNK_RAISE_BASE:
                 out.append(self._lazyeval_case(b + MOD * n, 0, True))
         return out
 
@@ -1319,7 +1550,57 @@ class C20:
     def _scenario(self, rng):
         bs = sorted(self._B)
         a, b, c = rng.sample(bs, 3)
-        kind = rng.choice(['persist', 'clear', 'fifo', 'xkey', 'lazy', 'equal-forms', 'dm', 'dm-near', 'falsy', 'falsy'])
+        kind = rng.choice(['persist', 'clear', 'fifo', 'xkey', 'lazy', 'equal-forms', 'dm', 'dm-near', 'falsy', 'falsy',
+                           'raise', 'raise', 'dm-order'])
+        if kind == 'raise':
+            # clear() followed by a call that RAISES (in the body / in the lazy evaluation of an argument): that call is
+            # the next call -- the cached results of the other argument lists are served from the cache afterwards;
+            # a raising call that does not follow clear(); the same on a second instance sharing the folder
+            ok = [x for x in bs if x not in RAISE_BASES and x != THUNK_RAISE_BASE]
+            a, b, c = rng.sample(ok, 3)
+            o = {'persistent': rng.random() < 0.5, 'key': rng.choice([None, None, None, 'k1']), 'lazy': rng.random() < 0.5,
+                 'max_size': ONE_GIGABYTE, 'folder': rng.randint(0, 2)}
+
+            def raising():
+                x = rng.choice(RAISE_BASES)
+                if o['lazy']:
+                    x = rng.choice([x, x + MOD * rng.randint(1, 2), THUNK_RAISE_BASE + 2 * MOD, THUNK_RAISE_BASE + 2 * MOD])
+                return x
+            x, y = raising(), raising()
+            ops = [['new', o], ['call', 0, a, 0], ['call', 0, b, 0]]
+            if rng.random() < 0.5:
+                ops.append(['call', 0, b, 0])
+            if rng.random() < 0.3:
+                ops.append(['call', 0, x, 0])           # an ordinary raising call
+            ops += [['clear', 0], ['call', 0, x, 0], ['call', 0, b, 0], ['call', 0, a, 0]]
+            if rng.random() < 0.5:
+                ops += [['call', 0, y, 0], ['call', 0, a, 0]]
+            if o['lazy'] and rng.random() < 0.5:
+                ops += [['call', 0, THUNK_RAISE_BASE + MOD, 0], ['call', 0, THUNK_RAISE_BASE, 0]]
+            ops += [['clear', 0], ['call', 0, rng.choice([a, c]), 0], ['call', 0, a, 0], ['call', 0, b, 0]]
+            if rng.random() < 0.6:
+                o2 = dict(o, via='decorator')
+                if rng.random() < 0.3:
+                    o2['persistent'] = not o['persistent']
+                ops += [['new', o2], ['call', 1, b, 0], ['call', 1, c, 0], ['clear', 1], ['call', 1, y, 0], ['call', 1, c, 0],
+                        ['call', 1, b, 0], ['call', 0, b, 0], ['clear', 0], ['clear', 1], ['call', 0, x, 0], ['call', 1, b, 0],
+                        ['call', 0, a, 0]]
+            return ops
+        if kind == 'dm-order':
+            # the same table built in every way, one after the other: one execution of the body per table
+            o = {'persistent': rng.random() < 0.5, 'key': None, 'lazy': rng.random() < 0.25, 'max_size': ONE_GIGABYTE,
+                 'folder': rng.randint(0, 2)}
+            ops = [['new', o]]
+            for x in rng.sample(DM_ORDER_BASES, 4):
+                fis = list(range(len(self._B[x])))
+                rng.shuffle(fis)
+                for fi in fis[:4]:
+                    ops.append(['call', 0, x, fi])
+            if rng.random() < 0.5:
+                x = rng.choice(DM_ORDER_BASES)
+                ops += [['new', dict(o, via='decorator')], ['call', 1, x, rng.randrange(len(self._B[x]))],
+                        ['call', 1, x, rng.randrange(len(self._B[x]))]]
+            return ops
         if kind == 'falsy' or (kind in ('persist', 'clear', 'fifo') and rng.random() < 0.3):
             # the same scenarios on argument lists whose result is None / 0 / '' / [] / False / NaN / ...
             a, b, c = rng.sample(RET_TABLE_BASES if rng.random() < 0.5 else SPECIAL_BASES, 3)
@@ -1391,8 +1672,8 @@ class C20:
         o = {'persistent': rng.random() < 0.5, 'key': None, 'lazy': False, 'max_size': ONE_GIGABYTE, 'folder': 1}
         ops = [['new', o]]
         for x in rng.sample([30, 31, 32, 33, 34, 35, 36, 37, 30, 31, 33, 30, 31, 33, 34, 35, 60, 61, 62, 63, 64, 36]
-                            + list(range(110, 128)), 10):
-            ops.append(['call', 0, x, rng.randint(0, 2)])
+                            + list(range(110, 128)) + DM_ORDER_BASES, 10):
+            ops.append(['call', 0, x, rng.randint(0, 7)])
         return ops
 
 
